@@ -4651,7 +4651,7 @@ static size_t ZSTD_writeFrameHeader(void* dst, size_t dstCapacity,
 {   BYTE* const op = (BYTE*)dst;
     U32   const dictIDSizeCodeLength = (dictID>0) + (dictID>=256) + (dictID>=65536);   /* 0-3 */
     U32   const dictIDSizeCode = params->fParams.noDictIDFlag ? 0 : dictIDSizeCodeLength;   /* 0-3 */
-    U32   const checksumFlag = params->fParams.checksumFlag>0;
+    U32   const checksumFlag = params->fParams.checksumFlag != 0;   /* same test as the code that appends the checksum */
     U32   const windowSize = (U32)1 << params->cParams.windowLog;
     U32   const singleSegment = params->fParams.contentSizeFlag && (windowSize >= pledgedSrcSize);
     BYTE  const windowLogByte = (BYTE)((params->cParams.windowLog - ZSTD_WINDOWLOG_ABSOLUTEMIN) << 3);
